@@ -114,7 +114,7 @@ def run(ctx):
     binp = ctx.go_build("c20")
     if not binp:
         return
-    rc, rows, err = ctx.jsonl([binp, "code", "-seed", str(ctx.seed), "-n", str(ncode)], timeout=900)
+    rc, rows, err = ctx.jsonl([binp, "code", "-seed", str(ctx.seed), "-n", str(ncode), "-in", "corpus/c20"], timeout=900)
     if rc != 0 or not rows:
         ctx.broken.append(("harness-run", "c20 code failed rc=%d %s" % (rc, err[-800:])))
         return
@@ -184,7 +184,7 @@ def run(ctx):
             note="in_scope decided in the kernel; of %d evaluated cases" % n_eval)
     ctx.extra["cases_in_proved_scope"] = n_scope
     # ------------------------------------------------------------ oracle leg / search against real bash
-    rc, orows, err = ctx.jsonl([binp, "oracle", "-seed", str(ctx.seed), "-n", str(norac)], timeout=2400)
+    rc, orows, err = ctx.jsonl([binp, "oracle", "-seed", str(ctx.seed), "-n", str(norac), "-in", "corpus/c20"], timeout=2400)
     if rc != 0 or not orows:
         ctx.broken.append(("harness-run", "c20 oracle failed rc=%d %s" % (rc, err[-800:])))
         return
